@@ -1,12 +1,12 @@
 #!/bin/bash
 # Apply each mutation to a scratch copy of the snapshot and run the quick check against it.
 # usage: mutation_tests/C14/run.sh [m1 m2 … | revert:<fix commit>]     (run from the framework root)
-SNAP=${VERIF_SNAP:-/tmp/work/repo_snap9}
+SNAP=${VERIF_SNAP:-/tmp/work/repo_snap11}
 MUT=/tmp/work/mut_C14
 HERE=$(cd "$(dirname "$0")" && pwd)
 ROOT=$(cd "$HERE/../.." && pwd)
 cd "$ROOT"
-ms=${@:-m1 m2 m3 m4 m5 m6 m7 m8 m9 m10 m11 m12}
+ms=${@:-m1 m2 m3 m4 m5 m6 m7 m8 m9 m10 m11 m12 m13}
 restore_pins() {
   VERIF_REPO="$SNAP" /venv/bin/python -c "
 import sys; sys.path.insert(0,'.')
